@@ -1,8 +1,7 @@
 // hist_main.cpp -- rapidcheck driver, replay runner and fault enumerator for the program
 // interpreter.  This is the only translation unit that includes rapidcheck; it does not
 // include small_vector.hpp.  Configurations are linked in from their own TUs.
-#include "core.hpp"
-#include "program.hpp"
+#include "checker.hpp"
 
 #include <rapidcheck.h>
 
@@ -20,65 +19,7 @@
 #include <unordered_set>
 #include <vector>
 
-using namespace vh;
-
 extern "C" void __sanitizer_set_death_callback (void (*) (void)) __attribute__ ((weak));
-
-// ---------------------------------------------------------------------- property table
-struct PropSpec
-{
-  const char *name;
-  unsigned    probes;
-  unsigned    need_all;     // non-trivial: all of these flags ...
-  unsigned    need_any;     // ... and (if non-zero) any of these
-  const char *profile;      // generator weight profile
-  bool        fault;        // uses the fault engine
-  unsigned    fault_mask;
-  const char *rule;
-};
-
-static const PropSpec PROPS[] = {
-  { "C01", PR_C01, RF_MID_MUTATION_AFTER_TRANSITION, RF_INLINE_TO_HEAP | RF_HEAP_TO_INLINE, "mix", false, 0,
-    "history contains an inline->heap or heap->inline transition and a mid-sequence insert/erase after it" },
-  { "C02", PR_C02 | PR_C01, RF_REPR_3CLASSES, 0, "whole", false, 0,
-    "a slot passed through >= 3 representation classes {fresh-inline, heap, shrunk-back-inline, stolen-from, element-wise-moved-from, post-throw}" },
-  { "C03", PR_C03 | PR_C01, RF_REALLOC | RF_MID_SHIFT | RF_WHOLE_TRANSFER, 0, "mix", false, 0,
-    "history contains >= 1 reallocation, >= 1 mid-sequence shift and >= 1 whole-container transfer" },
-  { "C04", PR_C04 | PR_C01 | PR_C02, 0, RF_MULTI_OWNER | RF_FITS_AT_EDGE | RF_SMALL_ONLY_FULL, "whole", false, 0,
-    "a heap buffer had >= 2 owners, or an op met the 'fits' premise with size within 1 of capacity (small-only mode: the inline buffer was filled completely)" },
-  { "C05", PR_C05 | PR_C02, 0, 0, "mix", true, MASK_C05,
-    "the injected fault fired after at least one element had been constructed/relocated or a block allocated inside the call" },
-  { "C06", PR_C06 | PR_C02 | PR_C03 | PR_C04, 0, 0, "mix", true, MASK_ALL,
-    "the injected fault fired after at least one earlier eligible event inside the call, or a second fault fired inside roll-back code" },
-  { "C07", PR_C07 | PR_C01 | PR_C02 | PR_C04, RF_UNEQUAL_ALLOC_OP, 0, "whole", false, 0,
-    "a copy/move/swap/assign between containers with unequal allocator ids where at least one side is heap" },
-  { "C09", PR_C09 | PR_C01 | PR_C02, 0, RF_STEAL_CROSS | RF_NOSTEAL_SMALLBUF, "whole", false, 0,
-    "steal premise true across different inline capacities, or false because N_dest >= source.capacity() > N_source" },
-  { "C10", PR_C10 | PR_C01, 0, RF_BOUNDARY_OP | RF_RESERVE_EQ, "grow", false, 0,
-    "an op landed within +-1 of the capacity boundary, or reserve(n) with n == capacity()" },
-  { "C11", PR_C11 | PR_C01, RF_ALIAS_SHIFTED, 0, "alias", false, 0,
-    "aliased element lies in the shifted part (i >= pos) or the aliasing call reallocated" },
-  { "C13", PR_C13 | PR_C01 | PR_C02 | PR_TRACE, RF_MEMMOVE_MID | RF_CONTIG_RANGE, 0, "mix", false, 0,
-    "program contains a mid-sequence erase/insert (memmove paths) and a range op from a contiguous source (memcpy paths)" },
-  { "C14", PR_C14 | PR_C01, RF_GEOMETRIC_EDGE, 0, "grow", false, 0,
-    "a reallocating call whose required capacity was <= 1.5x the old capacity (where linear and geometric growth differ)" },
-  { "C15", PR_C15 | PR_C01, 0, RF_INPUT_CROSS_REALLOC | RF_INPUT_ASSIGN_DIFF | RF_INPUT_INSERT_MID, "input", false, 0,
-    "single-pass range longer than the free capacity, or assign from a single-pass range of different length, or single-pass insert mid-sequence" },
-  { "C16", PR_C16 | PR_C01, RF_COMPARE, 0, "compare", false, 0,
-    "history contains a comparison between two slots" },
-  { "C17", PR_C01 | PR_C02 | PR_TRACE, 0, RF_CONTIG_RANGE | RF_ALWAYS_EQUAL_MOVE | RF_COMPARE | RF_ITER_DEREF, "mix", false, 0,
-    "program exercises a contiguous foreign iterator, an always-equal allocator move/swap, a comparison or an iterator dereference" },
-  { "C18", PR_C18 | PR_C02, 0, 0, "whole", true, MASK_ALL,
-    "fault injected into an operation that is not declared noexcept, after at least one earlier eligible event" },
-};
-
-static const PropSpec *
-find_prop (const std::string& n)
-{
-  for (unsigned i = 0; i < sizeof PROPS / sizeof PROPS[0]; ++i)
-    if (n == PROPS[i].name) return &PROPS[i];
-  return 0;
-}
 
 // ---------------------------------------------------------------------- generator profiles
 typedef std::vector<std::pair<unsigned, int> > Weights;
@@ -155,7 +96,6 @@ namespace rc
 }
 
 // ---------------------------------------------------------------------- crash bookkeeping
-static const Program *g_current = 0;
 static std::string    g_crash_path;
 
 static void
@@ -183,192 +123,6 @@ on_signal (int sig)
   std::fprintf (stderr, "VERIF-SIGNAL: %d\n", sig);
   std::_Exit (79);
 }
-
-// ---------------------------------------------------------------------- statistics
-struct Stats
-{
-  unsigned long long cases, executions, steps, skipped, shrink_execs;
-  std::unordered_set<unsigned long long> nontrivial;
-  std::map<std::string, unsigned long long> classes;
-  std::vector<std::string> samples;
-  std::vector<std::string> nontrivial_samples;
-  unsigned long long fault_points, faults_injected, faults_second, strong_checked;
-  std::map<std::string, unsigned long long> fault_labels;
-  std::map<std::string, unsigned long long> final_ops;
-  Stats () : cases (0), executions (0), steps (0), skipped (0), shrink_execs (0), fault_points (0),
-             faults_injected (0), faults_second (0), strong_checked (0) { }
-};
-
-static const char *FLAG_NAMES[] = {
-  "inline_to_heap", "heap_to_inline", "mid_mutation_after_transition", "realloc", "mid_shift", "whole_transfer",
-  "unequal_alloc_op", "steal", "steal_cross_capacity", "nosteal_small_buffer", "boundary_op", "reserve_eq_capacity",
-  "alias_shifted", "alias_tail_lt_n", "alias_tail_ge_n", "geometric_edge", "input_cross_realloc", "input_assign_diff_len",
-  "input_insert_mid", "multi_owner_buffer", "fits_at_edge", "memmove_mid", "contiguous_range", "repr_3_classes",
-  "stolen_from", "elementwise_moved_from", "compare", "always_equal_move", "iter_deref", "small_only_full" };
-
-static unsigned long long
-fingerprint (const Program& p)
-{
-  Digest d;
-  for (std::size_t i = 0; i < p.cfg.size (); ++i) d.add (static_cast<unsigned char> (p.cfg[i]));
-  for (std::size_t i = 0; i < p.ops.size (); ++i)
-  {
-    const Op& o = p.ops[i];
-    d.add (o.kind | (o.t << 8) | (o.s << 16) | (static_cast<unsigned long long> (o.a) << 24)
-           | (static_cast<unsigned long long> (o.b) << 32) | (static_cast<unsigned long long> (o.c) << 40)
-           | (static_cast<unsigned long long> (o.d) << 48));
-  }
-  d.add (p.fault_k); d.add (p.fault_j);
-  return d.h;
-}
-
-static std::string
-json_escape (const std::string& s)
-{
-  std::string o;
-  for (std::size_t i = 0; i < s.size (); ++i)
-  {
-    const char c = s[i];
-    if (c == '"' || c == '\\') { o += '\\'; o += c; }
-    else if (c == '\n') o += "\\n";
-    else if (static_cast<unsigned char> (c) < 0x20) o += ' ';
-    else o += c;
-  }
-  return o;
-}
-
-// ---------------------------------------------------------------------- one checked case
-struct Checker
-{
-  const PropSpec    *prop;
-  const ConfigEntry *cfg;
-  const ConfigEntry *twin;
-  RunOptions         base;
-  std::string        mode;
-  Stats              st;
-  bool               have_failure;
-  Program            failing;
-  RunResult          failing_res;
-  bool               shrinking;
-
-  Checker () : prop (0), cfg (0), twin (0), have_failure (false), shrinking (false) { }
-
-  bool nontrivial (const RunResult& r) const
-  {
-    if ((r.flags & prop->need_all) != prop->need_all) return false;
-    if (prop->need_any != 0 && (r.flags & prop->need_any) == 0) return false;
-    return true;
-  }
-
-  void account (const Program& p, const RunResult& r, bool nontriv)
-  {
-    ++st.executions;
-    st.steps += r.steps; st.skipped += r.skipped;
-    for (unsigned b = 0; b < sizeof FLAG_NAMES / sizeof FLAG_NAMES[0]; ++b)
-      if (r.flags & (1u << b)) ++st.classes[FLAG_NAMES[b]];
-    if (nontriv)
-    {
-      st.nontrivial.insert (fingerprint (p));
-      if (st.nontrivial_samples.size () < 2 && p.ops.size () <= 14) st.nontrivial_samples.push_back (to_text (p));
-    }
-    if (st.samples.size () < 3 && p.ops.size () >= 3 && p.ops.size () <= 12 && (st.executions % 97) == 1) st.samples.push_back (to_text (p));
-  }
-
-  void record_failure (const Program& p, const RunResult& r)
-  {
-    have_failure = true;
-    failing = p;
-    failing_res = r;
-  }
-
-  // fault-free history check; returns false on an oracle failure
-  bool check_history (const std::vector<Op>& ops)
-  {
-    Program p; p.cfg = cfg->name; p.ops = ops; p.property = prop->name; p.mode = mode;
-    g_current = &p;
-    RunResult r;
-    cfg->run (p, base, r);
-    account (p, r, nontrivial (r));
-    if (r.failed) { record_failure (p, r); g_current = 0; return false; }
-    if (twin != 0)
-    {
-      Program q = p; q.cfg = twin->name;
-      g_current = &q;
-      RunResult r2;
-      twin->run (q, base, r2);
-      ++st.executions;
-      if (r2.failed) { record_failure (q, r2); g_current = 0; return false; }
-      if (r2.digest != r.digest)
-      {
-        r2.failed = true; r2.clause = "twin.trace_differs";
-        r2.detail = std::string ("observation trace of ") + cfg->name + " and its trivially-copyable twin " + twin->name + " differ";
-        p.mode = "twin";
-        record_failure (p, r2);
-        g_current = 0;
-        return false;
-      }
-    }
-    g_current = 0;
-    return true;
-  }
-
-  static bool has_handler (int kind)
-  {
-    switch (kind)
-    {
-      case OP_insert_copy: case OP_insert_rv: case OP_insert_count: case OP_insert_range: case OP_insert_ilist:
-      case OP_emplace: case OP_assign_count: case OP_assign_range: case OP_assign_ilist: case OP_opassign_ilist:
-      case OP_swap_member: case OP_swap_adl: case OP_insert_alias: case OP_insert_count_alias: case OP_emplace_alias:
-      case OP_append_range: case OP_append_move: case OP_append_copy:
-        return true;
-      default:
-        return false;
-    }
-  }
-
-  // fault engine: prefix fault-free, then every single fault point of the last op
-  bool check_faults (const std::vector<Op>& ops)
-  {
-    if (ops.empty ()) return true;
-    Program p; p.cfg = cfg->name; p.ops = ops; p.property = prop->name; p.mode = mode;
-    RunOptions o = base; o.fault_mode = true; o.fault_mask = prop->fault_mask;
-    g_current = &p;
-    RunResult r0;
-    o.fault_k = 0; o.fault_j = 0;
-    cfg->run (p, o, r0);
-    ++st.executions; st.steps += r0.steps; st.skipped += r0.skipped;
-    ++st.final_ops[op_name (ops.back ().kind)];
-    if (r0.failed) { record_failure (p, r0); g_current = 0; return false; }
-    st.fault_points += r0.fault_points;
-    const unsigned P = r0.fault_points;
-    for (unsigned k = 1; k <= P; ++k)
-    {
-      p.fault_k = k; p.fault_j = 0;
-      o.fault_k = k; o.fault_j = 0;
-      RunResult r;
-      cfg->run (p, o, r);
-      ++st.faults_injected;
-      if (r.fault_label >= 0) ++st.fault_labels[fault_label_name (r.fault_label)];
-      if (r.strong_expected) ++st.strong_checked;
-      account (p, r, r.fault_fired && r.fault_nontrivial);
-      if (r.failed) { record_failure (p, r); g_current = 0; return false; }
-      if (! r.fault_fired) continue;
-      if (prop->fault_mask == MASK_ALL && has_handler (ops.back ().kind))
-        for (unsigned j = 1; j <= 6; ++j)
-        {
-          p.fault_j = j; o.fault_j = j;
-          RunResult r2;
-          cfg->run (p, o, r2);
-          if (! r2.fault_fired_second) { if (r2.failed) { record_failure (p, r2); g_current = 0; return false; } break; }
-          ++st.faults_second;
-          account (p, r2, true);
-          if (r2.failed) { record_failure (p, r2); g_current = 0; return false; }
-        }
-    }
-    g_current = 0;
-    return true;
-  }
-};
 
 // ---------------------------------------------------------------------- output
 static std::string fp_path;
@@ -449,6 +203,7 @@ replay (const std::string& path, const std::string& prop_override, bool quiet)
   if (cfg == 0) { std::fprintf (stderr, "unknown configuration %s\n", p.cfg.c_str ()); return 3; }
   RunOptions o; o.probes = ps->probes;
   o.small_only = (p.mode == "small");
+  if (p.mode.compare (0, 5, "long:") == 0) o.long_n = std::strtoul (p.mode.c_str () + 5, 0, 10);
   if (ps->fault || p.fault_k != 0) { o.fault_mode = true; o.fault_k = p.fault_k; o.fault_j = p.fault_j; o.fault_mask = ps->fault ? ps->fault_mask : MASK_ALL; }
   g_current = &p;
   RunResult r;
@@ -583,7 +338,16 @@ main (int argc, char **argv)
   bool ok;
   if (! ps->fault)
     ok = rc::check (std::string (ps->name) + " on " + cfg->name, [&] () {
-      const std::vector<Op> ops = *gen_ops;
+      std::vector<Op> ops = *gen_ops;
+      if (mode == "long")
+      {
+        // n log-uniform in [10, 4e6]; the prefix is kept short
+        const int e = *rc::gen::resize (rc::kNominalSize, rc::gen::inRange (0, 1000));
+        double n = 10.0;
+        for (int k = 0; k < e; ++k) n *= 1.01299;      // 1.01299^1000 ~ 4e5
+        ck.long_n = static_cast<unsigned long> (n);
+        if (ops.size () > 12) ops.resize (12);
+      }
       ++ck.st.cases;
       const bool good = ck.check_history (ops);
       if (! good) RC_FAIL (ck.failing_res.clause + ": " + ck.failing_res.detail);
